@@ -5,17 +5,17 @@ import os
 
 META = {
     "level": "proof",
-    "design_ref": "DESIGN.md section 8, C09; section 7 Fs.v; Appendix A 'Save'; finding F8",
+    "design_ref": "DESIGN.md section 8, C09; section 7 Fs.v; Appendix A 'Save'; finding F8 (fixed in 59e280a, 8d15b4b)",
     "technique": "Coq proof over an abstract file system of the step-list model of Font::save_impl (a successful "
                  "save = wipe + the font's entry list, inserted in writing order) + refutation witness for the full "
                  "statement + effect-order anchor + snapshot correspondence and oracle",
     "text": "Kernel-checked: for every font whose layer directories and glif file names are single plain path "
-            "components (the exact complement of the known class F8, decidable), every target and every prior file "
-            "system: nothing outside the target changes, whatever the outcome (C09_frame); after a successful save "
+            "components - which every font returned by the load model is (C09_loaded_fonts_safe; finding F8 was "
+            "repaired in 59e280a/8d15b4b) -, every target and every prior file system: nothing outside the target changes, whatever the outcome (C09_frame); after a successful save "
             "the file system at and below the target is `place t (tree_of f)`, a function of the font alone "
             "(C09_tree_function, C09_same_as_fresh); each optional file / directory is in that tree exactly when its "
-            "part is non-empty (C09_optional_*). The full statement without the class hypothesis is refuted by a "
-            "vm_compute witness (glif path ../../outside.glif). Model tied to the source by the effect-order anchor "
+            "part is non-empty (C09_optional_*). The former F8 witness (glif path ../../outside.glif) is kept as a "
+            "regression input that the loader must refuse. Model tied to the source by the effect-order anchor "
             "and by running Font::save and the model on the same scenarios (built, loaded+edited and crafted UFOs x "
             "prior target contents), comparing outcome and the complete sandbox snapshot.",
     "note": "Trusted: Coq kernel + VM; harness abstraction of a real Font; std::fs behaving like Model/Fs.v (no "
@@ -31,6 +31,10 @@ TRUSTED = [
     "harness abstraction of a real Font (harness/src/save_common.rs)",
     "Coq 8.16.1 kernel and vm_compute; no axioms; no extraction",
 ]
+# crafted variants of harness/src/c09.rs whose contents.plist / layercontents.plist entries are not
+# plain, distinct names: refused at load since 59e280a, 8d15b4b, 83f6c18
+MUST_BE_REJECTED = {0, 1, 2, 3, 6, 7, 8, 9, 10}
+
 ASSUMPTIONS = [
     "well-formed prior file system (every entry's parent is a directory) for C09_tree_function",
     "C09_safe_when_built (fonts built through the API have single-component paths) is C07's theorem about the "
@@ -67,21 +71,24 @@ def run(ctx, known, built):
             "model_outcome": save_common.fmt_outcome(outcome), "implementation_outcome": r["obs"],
             "model_tree": sorted(save_common.tree_paths(tree).items())[:200],
         })
-    # the class predicate exists twice (Coq: in_F8 on the abstraction; harness: on the real font)
+    # every font that reaches save has plain layer directories and glif names (theorem
+    # C09_loaded_fonts_safe + C07): checked on the abstraction (Coq) and on the real font (harness)
     for i, b in classes.items():
-        if b != rows[i]["class_f8"]:
-            ctx.disagreements.append({"what": "class predicate F8 differs between model and harness", "seed": ctx.seed,
-                                      "index": i, "scenario": rows[i], "model": b})
+        if b or rows[i]["class_f8"]:
+            ctx.violations.append({"seed": ctx.seed, "index": i, "scenario": rows[i],
+                                   "failed": ["a font with a layer directory or glif path that is not a single plain "
+                                              "component reached Font::save (model: %s, harness: %s)" % (b, rows[i]["class_f8"])],
+                                   "demand": "paths joined onto the target are plain names (F8 stays fixed)"})
     known_ids = {k["id"] for k in known}
     for r in rows:
         fails = []
         if r["fail_tree"]:
             fails += r["fail_tree"]
         if r["fail_frame"]:
-            if r["class_f8"] and "F8" in known_ids:
-                ctx.known_hits["F8"] = ctx.known_hits.get("F8", 0) + 1
-            else:
-                fails += r["fail_frame"]
+            fails += r["fail_frame"]
+        # regression inputs: crafted UFOs with unchecked paths must be refused at load
+        if r["kind"] == 2 and r["variant"] in MUST_BE_REJECTED and r["crafted_loaded"]:
+            fails.append("crafted UFO variant %d (%s) loads again" % (r["variant"], "; ".join(r["notes"])))
         if r["fail_opt"]:
             if r["class_reserved"] and "F8-reserved" in known_ids:
                 ctx.known_hits["F8-reserved"] = ctx.known_hits.get("F8-reserved", 0) + 1
@@ -93,9 +100,6 @@ def run(ctx, known, built):
                 "demand": "after a successful save the target equals a save of the same font to a fresh path, "
                           "optional files exist iff their part is non-empty, nothing outside the target changes",
             })
-    # the witness of F8 runs first (case 0): note when it no longer fails
-    if rows and "F8" in known_ids and not rows[0]["fail_frame"]:
-        ctx.assumptions.append("stale known finding F8: the witness corpus/C09/f8_outside_glif.txt no longer writes outside the target")
     ctx.obligation("correspondence:C09 (%d shards)" % nshards, okshards == nshards and not ctx.disagreements,
                    "model and implementation differ")
     nontrivial = set()
@@ -117,7 +121,7 @@ def run(ctx, known, built):
             "outcomes": dict(collections.Counter(r["obs"].split(" ")[0].strip("(") for r in rows)),
             "crafted_variants": dict(collections.Counter(str(r["variant"]) for r in rows if r["kind"] == 2)),
             "in_place": sum(1 for r in rows if r["in_place"]),
-            "class_F8_cases": sum(1 for r in rows if r["class_f8"]),
+            "crafted_rejected_at_load": sum(1 for r in rows if r["kind"] == 2 and not r["crafted_loaded"]),
             "class_reserved_cases": sum(1 for r in rows if r["class_reserved"]),
         },
         "traces_validated_against_impl": len(rows),
